@@ -541,8 +541,11 @@ func appendListedPackages(packages []string, mainBuild bool) error {
 		// Decide ToObfuscate as we read each package, to avoid a second pass
 		// that would force a full decode of the lazy map in sub-processes.
 		// If "GOGARBLE=foo/bar", "foo/bar_test" should also match.
-		path := pkg.ImportPath
-		if pkg.ForTest != "" {
+		// Any other package recompiled for a test, such as a dependency of
+		// "foo/bar_test" which imports "foo/bar", is still matched by its own
+		// path, which is the import path without the " [foo/bar.test]" suffix.
+		path, _, _ := strings.Cut(pkg.ImportPath, " ")
+		if pkg.ForTest != "" && path == pkg.ForTest+"_test" {
 			path = pkg.ForTest
 		}
 		switch {
